@@ -187,6 +187,7 @@ func classify(prop string, o *outcome) (nontrivial bool, feature uint64, classes
 		slowFSM = slowFSM || d > 0
 	}
 	add(slowFSM, "slow-fsm")
+	add(len(r.P.Proto) > 0, "protocol-version-2-servers")
 	add(has("fresh-server-joins"), "fresh-server-joins")
 	add(anyPrefix(f, "log-read-error@"), "log-read-errors")
 	add(has("verify-while-a-snapshot-is-in-flight"), "verify-while-a-snapshot-is-in-flight")
